@@ -73,5 +73,5 @@ def run(chk):
                 "applies (top level start/end, if, else-if, else, while, for, nested block, procedure, function, handler) and "
                 "stray text after each of the 8 `end` lines; library entry point: parser.Errors with located entries, zero "
                 "platform calls, zero yields; evy run on file and stdin: stdout empty, stderr non-empty, status != 0, no "
-                "SVG; non-trivial = distinct mutant" % 36)
+                "SVG; non-trivial = distinct mutant" % len({c["class"].split("@")[0] for c in cases}))
     chk.exhaustive = True
